@@ -285,6 +285,8 @@ Definition chk_explode_default (h : hist Qc) (lim : option rawlimit) (infv : opt
     (explode VO Vzero vadd FUEL h default_pred lim qzero
              (fun o => match infv with Some v => Some (v * o)%Qc | None => None end)) expected.
 
+(* bitwise operators on (integral) roller values: Python's &, |, ^ *)
+Definition qbit (o : bop) (x y : Qc) : Qc := match binop o x y with Ok v => v | Err _ => qc 0 1 end.
 (* ---- C10 / C11: scripted random choices ---- *)
 From Dyce Require Export Model.Roller.
 Definition asks_eqb (a b : list (list Qc * list Z)) : bool :=
